@@ -231,6 +231,7 @@ func parseSnapArg(s string) (*snapshot.Snapshot, error) {
 		return nil, fmt.Errorf("bad snapshot token")
 	}
 	snap := &snapshot.Snapshot{FormatVersion: uint32(u64(f[0])), CompatVersion: uint32(u64(f[1]))}
+	snap.Meta.TimestampNano = 1 // the snapshot itself may be arbitrarily old
 	if f[2] == "-" {
 		return snap, nil
 	}
@@ -369,6 +370,11 @@ func init() {
 		}
 		env, dir := newEnv(0)
 		c, lc := mkConfig(id, a[1] == "1", a[2] == "1", a[3] == "1", override)
+		if len(a) > 6 && a[6] == "sw" {
+			// tomb sweeper configured (its goroutine only runs under Sync): LoadOnce and the
+			// shadow capture refuse deletion markers older than now - (99% of) two days
+			c.Sweeper = config.Sweeper{Enabled: true, RetentionDays: 2}
+		}
 		s, err := syncer.New("db", env, sharedStore, c, lc, syncer.Options{ReceiveOnly: a[4] == "1"})
 		if err != nil {
 			closeEnv(env, dir)
